@@ -299,6 +299,7 @@ Section Oracles.
     | c :: _ =>
       mem_str s legacy_strings ||
       (mem_chr c (s_ "-+0123456789:. " ++ [c_tab]) && (use_quote s || any_octal11 s)) ||
+      is_prefix [c_dot; c_dot; c_dot] s ||    (* the document end marker *)
       decodes_as_non_string s || mem_chr c_tab s || yaml_unprintable s
     end.
 
